@@ -22,7 +22,7 @@ META = {
         'unfiltered, the relation types of all synset relations (external synsets included) and all sense relations of the '
         'lexicon being added, so no later sub-select depends on lookup rows left by other lexicons.'),
     'decides': ['cascade closure', 'FK enforcement per connection', 'single writer', 'remove shape', 'dependency relink',
-                'skip dominance'],
+                'skip dominance', 'no state outside the database', 'lookup tables complete for the lexicon being added'],
     'not_decided': ['equality of database images across histories', 'rowid reuse effects'],
     'assumptions': ['SQLite enforces declared foreign keys when the pragma is on'],
 }
